@@ -5,15 +5,21 @@
 //!
 //! exit codes: 0 ok, 1 violation(s) found / reproduced, 2 harness error.
 
+#![allow(dead_code)]
+
 mod data;
 mod framework;
 mod kinds;
 mod prng;
 
 mod c03;
+mod c07;
+#[cfg(feature = "shuttle")]
+mod c07shuttle;
 mod c11;
 mod model;
 mod tables;
+mod workload;
 #[cfg(feature = "serde")]
 mod c16;
 #[cfg(not(feature = "nostd"))]
@@ -69,6 +75,10 @@ macro_rules! scenarios {
         match $name {
             "c03" => {
                 let $s = c03::C03;
+                $body
+            }
+            "c07cpu" => {
+                let $s = c07::C07Cpu;
                 $body
             }
             "c11" => {
@@ -130,6 +140,54 @@ fn main() {
             let file: Value = serde_json::from_str(&text).unwrap_or_else(|e| harness_error(&format!("{path}: {e}")));
             let name = file["scenario"].as_str().unwrap_or("").to_string();
             scenarios!(name.as_str(), s => replay_with(&s, &file))
+        }
+        #[cfg(feature = "shuttle")]
+        "shuttle" => {
+            let seed = parse_u64(&arg_val(&args, "--seed").unwrap_or_else(|| "20260926".into()));
+            let iters = parse_u64(&arg_val(&args, "--iters").unwrap_or_else(|| "1000".into())) as usize;
+            let sched = arg_val(&args, "--sched").unwrap_or_else(|| "random".into());
+            let dir = arg_val(&args, "--dir").unwrap_or_else(|| ".".into());
+            let (code, rep) = c07shuttle::run(seed, iters, &sched, &dir);
+            println!("{}", serde_json::to_string(&rep).unwrap());
+            code
+        }
+        #[cfg(feature = "shuttle")]
+        "shuttle-replay" => c07shuttle::replay(&arg_val(&args, "--schedule-file").unwrap_or_default()),
+        "race" => {
+            // C07 (c): first-call race on real threads (meant to run under Miri and natively)
+            let seed = parse_u64(&arg_val(&args, "--seed").unwrap_or_else(|| "20260926".into()));
+            let threads = parse_u64(&arg_val(&args, "--threads").unwrap_or_else(|| "3".into())) as usize;
+            let ops = parse_u64(&arg_val(&args, "--ops").unwrap_or_else(|| "4".into())) as usize;
+            match c07::race(seed, threads, ops) {
+                Ok((d, _)) => {
+                    println!("RACE-OK digest={d:016x}");
+                    0
+                }
+                Err(e) => {
+                    println!("RACE-VIOLATION {e}");
+                    1
+                }
+            }
+        }
+        "transcript" => {
+            // build-matrix probe: prints one line per op and a final digest line
+            let seed = parse_u64(&arg_val(&args, "--seed").unwrap_or_else(|| "20260926".into()));
+            let count = parse_u64(&arg_val(&args, "--count").unwrap_or_else(|| "1000".into()));
+            let (lines, d) = c07::transcript(seed, count);
+            let mut out = String::new();
+            for l in &lines {
+                out.push_str(l);
+                out.push('\n');
+            }
+            out.push_str(&format!("DIGEST {d:016x}\n"));
+            print!("{out}");
+            0
+        }
+        "transcript-op" => {
+            let seed = parse_u64(&arg_val(&args, "--seed").unwrap_or_else(|| "20260926".into()));
+            let i = parse_u64(&arg_val(&args, "--index").unwrap_or_else(|| "0".into()));
+            println!("{}", c07::transcript_op_json(seed, i));
+            0
         }
         _ => harness_error("unknown command"),
     };
